@@ -339,6 +339,8 @@ def _all_paths_return(block: List[ast.stmt]) -> bool:
         return True
     if isinstance(last, ast.If) and last.orelse:
         return _all_paths_return(last.body) and _all_paths_return(last.orelse)
+    if isinstance(last, ast.With):
+        return _all_paths_return(last.body)
     return False
 
 
@@ -347,6 +349,15 @@ def _structure_returns(block: List[ast.stmt]) -> Optional[List[ast.stmt]]:
     statement of a tail block; None when a return sits inside a loop / try / with."""
     out: List[ast.stmt] = []
     for i, st in enumerate(block):
+        if isinstance(st, ast.With) and any(isinstance(x, ast.Return) for x in _walk_scope(st)):
+            # `with ctx: ...; return v` as the tail of the helper: the returns stay inside
+            if not _all_paths_return(st.body):
+                return None
+            body = _structure_returns(st.body)
+            if body is None:
+                return None
+            out.append(ast.copy_location(ast.With(items=st.items, body=body), st))
+            return out
         if isinstance(st, (ast.For, ast.While, ast.Try, ast.With)):
             if any(isinstance(x, ast.Return) for x in _walk_scope(st)):
                 return None
@@ -396,6 +407,10 @@ def _returns_to_assign(block: List[ast.stmt], make) -> List[ast.stmt]:
                                             body=_returns_to_assign(last.body, make) or
                                             [ast.Pass()],
                                             orelse=_returns_to_assign(last.orelse, make)), last))
+    elif isinstance(last, ast.With) and any(isinstance(x, ast.Return) for x in _walk_scope(last)):
+        out.append(ast.copy_location(ast.With(items=last.items,
+                                              body=_returns_to_assign(last.body, make) or
+                                              [ast.Pass()]), last))
     else:
         out.append(last)
         # falling off the end returns None
